@@ -162,7 +162,11 @@ func c14Opts(tier string, spec world.Spec) hOpts {
 	o.NearMiss = true
 	o.Replays = true
 	o.BadIdP = append(o.BadIdP, world.Answer{Name: "http400", Status: 400}, world.Answer{Name: "aud-foreign", Evil: "aud-other"},
-		world.Answer{Name: "raw-garbage", UseRaw: true, RawBody: "{not json"})
+		world.Answer{Name: "raw-garbage", UseRaw: true, RawBody: "{not json"},
+		// answers that carry real tokens but do not decode as a token response (numeric corners of expires_in): whatever
+		// the service says about them, it must not quote them
+		world.Answer{Name: "tokens+expires_in-string", ExpiresInRaw: `"3600"`}, world.Answer{Name: "tokens+expires_in-float", ExpiresInRaw: `3599.5`},
+		world.Answer{Name: "tokens+expires_in-huge", ExpiresInRaw: `1e30`})
 	o.GoodIdP = append(o.GoodIdP, world.Answer{Name: "keep-rt", KeepRT: true})
 	o.MaxSessions = 2
 	if tier == "thorough" {
